@@ -3,11 +3,13 @@
    CacheTrim/CacheTrimFacts.v, with Print Assumptions beneath it.  Times are Z nanoseconds
    since the Unix epoch; [clock_ok] is a clock between 1970 and 2262, [ns_ok] an mtime that
    time.Unix converts without wrapping, [dir_ok] the latter for every file of the 256
-   subdirectories.  The intervals are the names regenerated from cache.go. *)
+   subdirectories; [read_record c] is what lockedfile.Read(trim.txt) yields (None when the file
+   is missing or, [trimblocked], a directory).  The intervals are the names regenerated from
+   cache.go. *)
 From Coq Require Import List Bool ZArith Sorted.
 From Coq.Strings Require Import Byte.
 From GI Require Import Lib.Bytes Gen.CacheTrimConsts CacheTrim.CacheTrim CacheTrim.CacheTrimTimeFacts
-  CacheTrim.CacheTrimFacts.
+  CacheTrim.CacheTrimFacts CacheTrim.CacheTrimConc CacheTrim.CacheTrimConcFacts.
 Import ListNotations.
 Local Open Scope Z_scope.
 
@@ -48,23 +50,27 @@ Theorem C13_record_dichotomy : forall now record,
 Proof. exact record_dichotomy. Qed.
 Print Assumptions C13_record_dichotomy.
 
-(* a parsable last-trim second t with -mtimeInterval < now - t*10^9 < trimInterval: nothing changes *)
+(* a parsable last-trim second t with -mtimeInterval < now - t*10^9 < trimInterval: nothing changes,
+   nil is returned *)
 Theorem C13_trim_skips : forall now c, clock_ok now ->
-  record_in_window now (trimtxt c) -> trim now c = c.
+  record_in_window now (read_record c) -> trim now c = c /\ trim_err now c = false.
 Proof. exact trim_skips. Qed.
 Print Assumptions C13_trim_skips.
 
-(* missing / corrupt / a day old / an hour ahead: the scan runs and the record becomes now's second,
-   which ParseInt(TrimSpace(.)) reads back *)
-Theorem C13_trim_runs_otherwise : forall now c, clock_ok now -> record_stale now (trimtxt c) ->
-  trim now c = trimmed now c /\
+(* missing / unreadable / corrupt / a day old / an hour ahead: the scan runs over every
+   subdirectory that can be opened; the record becomes now's second, which
+   ParseInt(TrimSpace(.)) reads back — unless trim.txt cannot be written: then it stays as it
+   was and that error is the only one Trim returns *)
+Theorem C13_trim_runs_otherwise : forall now c, clock_ok now -> record_stale now (read_record c) ->
+  trim now c = trimmed now c /\ trim_err now c = trimblocked c /\
   parse_int (trim_space (decimal (now / nano))) = Some (now / nano).
 Proof. exact trim_runs_otherwise. Qed.
 Print Assumptions C13_trim_runs_otherwise.
 
 (* after a trim that ran, a second one within (a day minus the truncated second) does nothing *)
 Theorem C13_trim_then_skips : forall now now' c, clock_ok now -> clock_ok now' ->
-  record_stale now (trimtxt c) -> now <= now' -> now' - now < trim_interval - nano ->
+  record_stale now (read_record c) -> trimblocked c = false ->
+  now <= now' -> now' - now < trim_interval - nano ->
   trim now' (trim now c) = trim now c.
 Proof. exact trim_then_skips. Qed.
 Print Assumptions C13_trim_then_skips.
@@ -80,7 +86,7 @@ Print Assumptions C13_used_keeps.
 
 (* the invariant, over every history of stores, lookups and trims with a monotone clock *)
 Theorem C13_lastuse_invariant : forall c h, dir_ok c ->
-  Forall (fun e => clock_ok (etime e)) h ->
+  Forall ev_ok h ->
   StronglySorted (fun a b => etime a <= etime b) h ->
   forall e i n o, In e h -> uses e i n ->
   In o (subdir i (run true c h)) -> oname o = n -> okind_of o = KFile ->
@@ -98,7 +104,7 @@ Proof. exact trim_keeps_recent. Qed.
 Print Assumptions C13_trim_keeps_recent.
 
 (* when the scan runs, every regular file with an entry name and mtime < now - trimLimit - mtimeInterval goes *)
-Theorem C13_trim_removes_stale : forall now c i o, clock_ok now -> record_stale now (trimtxt c) ->
+Theorem C13_trim_removes_stale : forall now c i o, clock_ok now -> record_stale now (read_record c) ->
   (i < Z.to_nat trim_subdir_count)%nat -> ns_ok (omtime o) ->
   is_entry_name (oname o) = true -> okind_of o = KFile ->
   omtime o < now - trim_limit - mtime_interval ->
@@ -121,6 +127,94 @@ Theorem C13_trim_only_entries : forall now c,
 Proof. exact trim_only_entries. Qed.
 Print Assumptions C13_trim_only_entries.
 
+(* an interrupted Trim (killed anywhere, any order of processing): whatever subset of the
+   removals was carried out, keep-recent and only-entries hold, only stale entries are gone,
+   and the record is unchanged, so the next Trim runs *)
+Theorem C13_trim_partial_safe : forall done now c, clock_ok now ->
+  rootobjs (trim_partial done now c) = rootobjs c /\
+  trimtxt (trim_partial done now c) = trimtxt c /\
+  trimblocked (trim_partial done now c) = trimblocked c /\
+  (forall now', trim_due now' (read_record (trim_partial done now c)) = trim_due now' (read_record c)) /\
+  forall i,
+    (forall o, In o (subdir i (trim_partial done now c)) -> In o (subdir i c)) /\
+    filter non_entry (subdir i (trim_partial done now c)) = filter non_entry (subdir i c) /\
+    (forall o lastuse, In o (subdir i c) -> ns_ok (omtime o) ->
+       lastuse - mtime_interval <= omtime o -> now - trim_limit <= lastuse ->
+       In o (subdir i (trim_partial done now c))) /\
+    (forall o, In o (subdir i c) -> ns_ok (omtime o) -> ~ In o (subdir i (trim_partial done now c)) ->
+       is_entry_name (oname o) = true /\ omtime o < now - trim_limit - mtime_interval).
+Proof. exact trim_partial_safe. Qed.
+Print Assumptions C13_trim_partial_safe.
+
+(* the same after any number k of completed subdirectories *)
+Theorem C13_trim_prefix_safe : forall k now c, clock_ok now ->
+  rootobjs (trim_prefix k now c) = rootobjs c /\
+  trimtxt (trim_prefix k now c) = trimtxt c /\
+  trimblocked (trim_prefix k now c) = trimblocked c /\
+  (forall now', trim_due now' (read_record (trim_prefix k now c)) = trim_due now' (read_record c)) /\
+  forall i,
+    (forall o, In o (subdir i (trim_prefix k now c)) -> In o (subdir i c)) /\
+    filter non_entry (subdir i (trim_prefix k now c)) = filter non_entry (subdir i c) /\
+    (forall o lastuse, In o (subdir i c) -> ns_ok (omtime o) ->
+       lastuse - mtime_interval <= omtime o -> now - trim_limit <= lastuse ->
+       In o (subdir i (trim_prefix k now c))) /\
+    (forall o, In o (subdir i c) -> ns_ok (omtime o) -> ~ In o (subdir i (trim_prefix k now c)) ->
+       is_entry_name (oname o) = true /\ omtime o < now - trim_limit - mtime_interval).
+Proof. exact trim_prefix_safe. Qed.
+Print Assumptions C13_trim_prefix_safe.
+
+Theorem C13_trim_prefix_is_prefix : forall k now c i,
+  subdir i (trim_prefix k now c) =
+  if trim_due now (read_record c) && Nat.ltb i (Nat.min k (Z.to_nat trim_subdir_count))
+  then trim_subdir (trim_cutoff now) (subdir i c) else subdir i c.
+Proof. exact subdir_trim_prefix. Qed.
+Print Assumptions C13_trim_prefix_is_prefix.
+
+(* the next due Trim, at the same or a later time, leaves what it would have left without the interruption *)
+Theorem C13_trim_resume : forall done now now' c, clock_ok now -> clock_ok now' -> now <= now' ->
+  trim_due now' (read_record c) = true ->
+  trim now' (trim_partial done now c) = trim now' c.
+Proof. exact trim_resume. Qed.
+Print Assumptions C13_trim_resume.
+
+(* which files each public lookup refreshes: Get the index file only *)
+Theorem C13_api_get_touches : forall u ia na c,
+  (forall i, subdir i (api_get u ia na c) = map (touch u ia na i) (subdir i c)) /\
+  rootobjs (api_get u ia na c) = rootobjs c /\ trimtxt (api_get u ia na c) = trimtxt c.
+Proof. exact api_get_touches. Qed.
+Print Assumptions C13_api_get_touches.
+
+(* OutputFile the data file only *)
+Theorem C13_api_output_file_touches : forall u id nd c,
+  (forall i, subdir i (api_output_file u id nd c) = map (touch u id nd i) (subdir i c)) /\
+  rootobjs (api_output_file u id nd c) = rootobjs c /\ trimtxt (api_output_file u id nd c) = trimtxt c.
+Proof. exact api_output_file_touches. Qed.
+Print Assumptions C13_api_output_file_touches.
+
+(* GetFile and GetBytes both *)
+Theorem C13_api_lookup_touches : forall u ia na id nd c,
+  (forall i, subdir i (lookup u ia na id nd c) = map (touch u id nd i) (map (touch u ia na i) (subdir i c))) /\
+  rootobjs (lookup u ia na id nd c) = rootobjs c /\ trimtxt (lookup u ia na id nd c) = trimtxt c.
+Proof. exact api_lookup_touches. Qed.
+Print Assumptions C13_api_lookup_touches.
+
+(* after Get at time u the index file survives any trim at now <= u + trimLimit *)
+Theorem C13_get_refreshes_index : forall c u now ia na, dir_ok c -> clock_ok u -> clock_ok now ->
+  now <= u + trim_limit ->
+  forall o', In o' (subdir ia (api_get u ia na c)) -> oname o' = na -> stat_ok (okind_of o') = true ->
+  u - mtime_interval <= omtime o' /\ In o' (subdir ia (trim now (api_get u ia na c))).
+Proof. exact get_refreshes_index. Qed.
+Print Assumptions C13_get_refreshes_index.
+
+(* ... but not the data file: Get alone does not protect the output (its documented contract) *)
+Theorem C13_get_only_data_not_protected : exists c u now ia na id nd,
+  dir_ok c /\ clock_ok u /\ clock_ok now /\ u <= now <= u + trim_limit /\
+  has_file na (subdir ia c) = true /\ has_file nd (subdir id c) = true /\
+  let c' := trim now (api_get u ia na c) in
+  has_file na (subdir ia c') = true /\ has_file nd (subdir id c') = false.
+Proof. exact get_only_data_not_protected. Qed.
+Print Assumptions C13_get_only_data_not_protected.
+
 (* after a lookup at time u both files are still there, refreshed, and survive any trim at now <= u + trimLimit *)
 Theorem C13_lookup_refreshes : forall c u now ia na id nd, dir_ok c -> clock_ok u -> clock_ok now ->
   now <= u + trim_limit ->
@@ -136,7 +230,7 @@ Print Assumptions C13_lookup_refreshes.
 (* histories (repaired Put): a file used at time u is still there after any further stores, lookups
    and trims whose times lie in [u, u + trimLimit] *)
 Theorem C13_history_survives : forall c pre e post i n, dir_ok c ->
-  Forall (fun e' => clock_ok (etime e')) (pre ++ e :: post) -> uses e i n ->
+  Forall ev_ok (pre ++ e :: post) -> uses e i n ->
   (exists o, In o (subdir i (run true c (pre ++ [e]))) /\ oname o = n /\ okind_of o = KFile) ->
   Forall (fun e' => etime e <= etime e' <= etime e + trim_limit) post ->
   exists o, In o (subdir i (run true c (pre ++ e :: post))) /\ oname o = n /\ okind_of o = KFile.
@@ -145,7 +239,7 @@ Print Assumptions C13_history_survives.
 
 (* the code before the repair of copyFile: only when the use is not a re-store of an existing output *)
 Theorem C13_history_survives_unrepaired_partial : forall c pre e post i n, dir_ok c ->
-  Forall (fun e' => clock_ok (etime e')) (pre ++ e :: post) -> uses e i n ->
+  Forall ev_ok (pre ++ e :: post) -> uses e i n ->
   store_refreshes (run false c pre) e i n ->
   (exists o, In o (subdir i (run false c (pre ++ [e]))) /\ oname o = n /\ okind_of o = KFile) ->
   Forall (fun e' => etime e <= etime e' <= etime e + trim_limit) post ->
@@ -155,9 +249,70 @@ Print Assumptions C13_history_survives_unrepaired_partial.
 
 (* ... and without that restriction the statement is false for the unrepaired store *)
 Theorem C13_unrepaired_store_refuted : exists c pre e post i n,
-  dir_ok c /\ Forall (fun e' => clock_ok (etime e')) (pre ++ e :: post) /\ uses e i n /\
+  dir_ok c /\ Forall ev_ok (pre ++ e :: post) /\ uses e i n /\
   (exists o, In o (subdir i (run false c (pre ++ [e]))) /\ oname o = n /\ okind_of o = KFile) /\
   Forall (fun e' => etime e <= etime e' <= etime e + trim_limit) post /\
   ~ (exists o, In o (subdir i (run false c (pre ++ e :: post))) /\ oname o = n /\ okind_of o = KFile).
 Proof. exact store_asis_refuted. Qed.
 Print Assumptions C13_unrepaired_store_refuted.
+
+(* the executable form of the history statement (with the property's five days) is true of the
+   model on every directory and history; the runner evaluates it on every scenario *)
+Theorem C13_holds_on_true : forall c h, dir_ok c -> Forall ev_ok h ->
+  c13_holds_on c h = true.
+Proof. exact c13_holds_on_true. Qed.
+Print Assumptions C13_holds_on_true.
+
+(* Trim concurrent with a lookup in another process (one file, interleaved at Stat / Remove /
+   Chtimes / read): a file that is young or was refreshed before the trimming process looks at
+   it survives every interleaving *)
+Theorem C13_conc_fresh_survives : forall data now u sched s o, clock_ok now -> clock_ok u ->
+  now <= u + trim_limit ->
+  cfile s = Some o -> ns_ok (omtime o) -> u - mtime_interval <= omtime o ->
+  ctp s = TIdle ->
+  exists o', cfile (c_run data (trim_cutoff now) u sched s) = Some o' /\
+             oname o' = oname o /\ odata o' = odata o /\ okind_of o' = okind_of o /\
+             u - mtime_interval <= omtime o'.
+Proof. exact conc_fresh_survives. Qed.
+Print Assumptions C13_conc_fresh_survives.
+
+(* in particular an entry whose lookup completed before the trim reached it *)
+Theorem C13_conc_lookup_before_trim : forall data now u o sched, clock_ok now -> clock_ok u ->
+  now <= u + trim_limit -> ns_ok (omtime o) -> okind_of o = KFile ->
+  let s1 := c_run data (trim_cutoff now) u lookup_alone (c_init o) in
+  clp s1 = LDone true /\
+  exists o', cfile (c_run data (trim_cutoff now) u sched s1) = Some o' /\
+             oname o' = oname o /\ odata o' = odata o /\ okind_of o' = KFile /\
+             u - mtime_interval <= omtime o'.
+Proof. exact conc_lookup_before_trim. Qed.
+Print Assumptions C13_conc_lookup_before_trim.
+
+(* no interleaving removes a file that the trimming process did not see stale *)
+Theorem C13_conc_removed_only_if_seen_stale : forall data cutoff u sched s o,
+  cfile s = Some o -> ctp s = TIdle -> trim_removes cutoff o = false ->
+  trim_removes cutoff (set_mtime u o) = false ->
+  cfile (c_run data cutoff u sched s) <> None.
+Proof. exact conc_removed_only_if_seen_stale. Qed.
+Print Assumptions C13_conc_removed_only_if_seen_stale.
+
+(* a lookup that overlaps the trim may lose: Stat by the trim, the whole (successful,
+   refreshing) lookup, then the Remove *)
+Theorem C13_conc_overlap_removed :
+  let s := c_run false (trim_cutoff ex_c_now) ex_c_now [true; false; false; false; false; true] (c_init ex_c_old) in
+  clp s = LDone true /\ cfile s = None.
+Proof. exact conc_overlap_removed. Qed.
+Print Assumptions C13_conc_overlap_removed.
+
+(* ... or win *)
+Theorem C13_conc_overlap_survives :
+  let s := c_run false (trim_cutoff ex_c_now) ex_c_now [false; false; false; true; false; true] (c_init ex_c_old) in
+  clp s = LDone true /\ cfile s = Some (set_mtime ex_c_now ex_c_old).
+Proof. exact conc_overlap_survives. Qed.
+Print Assumptions C13_conc_overlap_survives.
+
+(* and GetBytes (used, then read) can refresh the data file and still miss *)
+Theorem C13_conc_overlap_data_miss :
+  let s := c_run true (trim_cutoff ex_c_now) ex_c_now [true; false; false; true; false] (c_init ex_c_oldd) in
+  clp s = LDone false /\ cfile s = None.
+Proof. exact conc_overlap_data_miss. Qed.
+Print Assumptions C13_conc_overlap_data_miss.
